@@ -647,6 +647,21 @@ def run_case(case, prop):
                 steps += 1
                 if prop == 'C08':
                     check_coherent(mbi, m, case, 'model of EST #%d re-checked after synthetic_data(rows=%d, method=%s)' % (op[1] + 1, op[2], op[3]), 'after-synthetic_data', viol, probes)
+                    if not viol and (oi + op[2]) % 2 == 0:
+                        # one more use of a returned model: a Kronecker-product query (all-ones row per attribute = the total), then the coherence check again
+                        before, _ = guard_repo(lambda: [np.array(m.project(cl).datavector(), dtype=float) for cl in m.cliques], 'project')
+                        _, v = guard_repo(lambda: m.krondot([np.ones((1, k_)) for k_ in m.domain.shape]), 'krondot')
+                        if v:
+                            viol.append(v.as_dict())
+                        after, _ = guard_repo(lambda: [np.array(m.project(cl).datavector(), dtype=float) for cl in m.cliques], 'project')
+                        if before is not None and after is not None and not viol:
+                            for cl, b_, a_ in zip(m.cliques, before, after):
+                                if not np.array_equal(b_, a_, equal_nan=True):
+                                    viol.append(Violation('c08-coherent', 'c08-coherent:answer-changed-by-krondot', 'the in-clique answer on %s of the model of EST #%d changed by %.3g after a krondot query on the same model' % (
+                                        cl, op[1] + 1, float(np.nanmax(np.abs(b_ - a_))))).as_dict())
+                                    break
+                        faults['model-used-for-krondot'] = faults.get('model-used-for-krondot', 0) + 1
+                        check_coherent(mbi, m, case, 'model of EST #%d re-checked after krondot' % (op[1] + 1), 'after-krondot', viol, probes)
         elif op[0] == 'QUERY':
             if op[1] < len(returned):
                 m = returned[op[1]][0]
